@@ -7,17 +7,17 @@ Local Open Scope N_scope.
 Definition ex_c1 : client :=
   mkClient 1 false [GAuthorizationCode; GRefreshToken; GClientCredentials; GImplicit]
     ["code"; "token"; "id_token"; "id_token token"; "code id_token"; "code token"; "code id_token token"]
-    ["https://c1.example/cb"] "openid email" CibaNone false false false false false false false 0 false.
+    ["https://c1.example/cb"] "openid email" CibaNone false false false false false false false 0 false None.
 Definition ex_c5 : client :=
-  mkClient 5 false [GCiba] [] [] "openid email" CibaPoll false false false false false false false 0 false.
+  mkClient 5 false [GCiba] [] [] "openid email" CibaPoll false false false false false false false 0 false None.
 Definition ex_clients := [ex_c1; ex_c5].
 
 Definition ex_params (rt : string) (ch : pk) (m : string) : params :=
-  mkParams 0 "https://c1.example/cb" "" rt "openid" "st" "n-1" ch m 0 "" 0 "" [].
-Definition ex_auth (p : params) : op := OpAuthorize (mkAReq 1 p true (PolSuccess "alice" "openid" [])).
+  mkParams 0 "https://c1.example/cb" "" rt "openid" "st" "n-1" ch m 0 "" 0 "" [] None.
+Definition ex_auth (p : params) : op := OpAuthorize (mkAReq 1 p true (PolSuccess "alice" "openid" [] [])).
 Definition ex_proof : dpop_proof := mkProof true true (JwkPublic 77) 77 (Some 0%Z) true true HtuExact 0.
 Definition ex_cc (b : bind_in) : op :=
-  OpToken GClientCredentials (mkTReq (mkCred 1 true) b "" 0 "" 0 PkEmpty 0 HgOk BaApprove [] AsNone).
+  OpToken GClientCredentials (mkTReq (mkCred 1 true) b "" 0 "" 0 PkEmpty 0 HgOk BaApprove [] AsNone None).
 Definition ex_run (p : profile) (opts : list opt) (ops : list op) : option (list bool) :=
   option_map (fun cfg => map obs_obtains (run_g (mkWorld cfg ex_clients) [] ops)) (build p opts).
 
@@ -26,7 +26,7 @@ Example par_required_accepts :
   ex_run POpenID [WithAuthorizationCodeGrant; WithPARRequired 60]
     [ex_auth (ex_params "code" PkEmpty "");
      OpPar (mkPReq (mkCred 1 true) (ex_params "code" PkEmpty "") no_bind);
-     ex_auth (mkParams (mint 1 KParUri) "" "" "code" "openid" "" "" PkEmpty "" 0 "" 0 "" [])]
+     ex_auth (mkParams (mint 1 KParUri) "" "" "code" "openid" "" "" PkEmpty "" 0 "" 0 "" [] None)]
   = Some [false; true; true].
 Proof. vm_compute. reflexivity. Qed.
 
@@ -40,7 +40,7 @@ Proof. vm_compute. reflexivity. Qed.
 (* openid scope required *)
 Example openid_required_accepts :
   ex_run POpenID [WithScopes [ScExact "email"]; WithOpenIDScopeRequired; WithAuthorizationCodeGrant]
-    [ex_auth (mkParams 0 "https://c1.example/cb" "" "code" "email" "st" "n-1" PkEmpty "" 0 "" 0 "" []);
+    [ex_auth (mkParams 0 "https://c1.example/cb" "" "code" "email" "st" "n-1" PkEmpty "" 0 "" 0 "" [] None);
      ex_auth (ex_params "code" PkEmpty "")]
   = Some [false; true].
 Proof. vm_compute. reflexivity. Qed.
@@ -50,7 +50,7 @@ Example dpop_required_accepts :
   ex_run POpenID [WithClientCredentialsGrant; WithImplicitGrant; WithDPoPRequired]
     [ex_cc no_bind; ex_cc (mkBind (Some ex_proof) 0);
      ex_auth (ex_params "token" PkEmpty "");
-     ex_auth (mkParams 0 "https://c1.example/cb" "" "token" "openid" "st" "n-1" PkEmpty "" 77 "" 0 "" [])]
+     ex_auth (mkParams 0 "https://c1.example/cb" "" "token" "openid" "st" "n-1" PkEmpty "" 77 "" 0 "" [] None)]
   = Some [false; true; false; true].
 Proof. vm_compute. reflexivity. Qed.
 
@@ -75,7 +75,7 @@ Proof. vm_compute. reflexivity. Qed.
 Example fapi1_accepts :
   ex_run PFapi1 [WithAuthorizationCodeGrant; WithImplicitGrant; WithJARM]
     [ex_auth (ex_params "code" PkEmpty "");
-     ex_auth (mkParams 0 "https://c1.example/cb" "jwt" "code" "openid" "st" "n-1" PkEmpty "" 0 "" 0 "" []);
+     ex_auth (mkParams 0 "https://c1.example/cb" "jwt" "code" "openid" "st" "n-1" PkEmpty "" 0 "" 0 "" [] None);
      ex_auth (ex_params "code id_token" PkEmpty "");
      ex_auth (ex_params "token" PkEmpty "")] = Some [false; true; true; false].
 Proof. vm_compute. reflexivity. Qed.
@@ -86,11 +86,11 @@ Example jar_required_refuses :
 Proof. vm_compute. reflexivity. Qed.
 Example ciba_jar_required_refuses :
   ex_run POpenID [WithCIBAGrant; WithCIBAJARRequired]
-    [OpBcAuthorize (mkBReq (mkCred 5 true) (mkParams 0 "" "" "" "openid" "" "" PkEmpty "" 0 "alice" 0 "" []) no_bind true "alice" "openid" [])]
+    [OpBcAuthorize (mkBReq (mkCred 5 true) (mkParams 0 "" "" "" "openid" "" "" PkEmpty "" 0 "alice" 0 "" [] None) no_bind true "alice" "openid" [] [])]
   = Some [false].
 Proof. vm_compute. reflexivity. Qed.
 Example ciba_plain_accepts :
   ex_run POpenID [WithCIBAGrant; WithCIBAJAR]
-    [OpBcAuthorize (mkBReq (mkCred 5 true) (mkParams 0 "" "" "" "openid" "" "" PkEmpty "" 0 "alice" 0 "" []) no_bind true "alice" "openid" [])]
+    [OpBcAuthorize (mkBReq (mkCred 5 true) (mkParams 0 "" "" "" "openid" "" "" PkEmpty "" 0 "alice" 0 "" [] None) no_bind true "alice" "openid" [] [])]
   = Some [true].
 Proof. vm_compute. reflexivity. Qed.
